@@ -92,6 +92,8 @@ def build_asset(a, nodes, tz=None):
             kw[k] = ts(v, tz)
         elif k == "orders":
             kw[k] = _orders(v, tz)
+        elif k == "orders_df":
+            pass
         elif k == "base_asset":
             kw[k] = build_asset(v, nodes, tz)
         elif k == "portfolio":
@@ -106,6 +108,8 @@ def build_asset(a, nodes, tz=None):
             kw["nodes"] = nn[0]
         else:
             kw["nodes"] = nn
+    if a.get("orders_df"):
+        kw["orders"] = pd.DataFrame(kw["orders"])
     return cls(**kw)
 
 
